@@ -1,14 +1,37 @@
-import Pyrtma.Proofs.Validators
+import Pyrtma.Proofs.ValidatorsCanon
+import Pyrtma.Proofs.ValidatorsProg
+import Pyrtma.Proofs.ValidatorsFloat
 /-!
 # C09 — field validation is sound, complete and atomic
 
-Theorems about `Model/Validators.lean` (`setField` = a descriptor's `__set__` / `__setitem__` followed by the ctypes
-store, which writes sequence elements one by one and may stop half way).  All statements are for **every** field
-type, width, array length, key (index, any slice shape, whole field), pre-existing content and right-hand side.
+Theorems about M4: `Model/Validators.lean` (`setField` = a descriptor's `__set__` / `__setitem__` followed by the ctypes
+store, which writes sequence elements one by one and may stop half way) and `Model/ValidatorsExt.lean` (`readField` =
+`__get__` / `__getitem__`; `setAt` = the assignment seen from the whole message buffer; `Stmt` / `execList` = programs of
+nested `with disable_message_validation(ignore)` blocks, `try/except`, `raise`, views bound at any point).  All statements
+are for **every** field type, width, array length, key (index, any slice shape, whole field), pre-existing content and
+right-hand side.
 
-Floating point: `roundMag` (the rounding done by the C cast / `PyLong_AsDouble`) is `opaque`, so everything below
-holds for an arbitrary rounding function; that ctypes rounds to nearest-even and overflows exactly at the IEEE
-threshold is checked on every generated case (bit patterns against ctypes, `isNearestMag`/`overflowsMag` of the Spec).
+| clause of the property | theorems |
+|---|---|
+| refused ⇒ every byte unchanged | `refused_atomic` (field), `refused_leaves_message_unchanged` (whole object), `…_kth_bad_all_or_nothing` (k-th element after any prefix; int / float / byte / struct arrays) |
+| out-of-domain ⇒ refused, wherever it stands | `int_/float_/byte_/struct_array_bad_element_refused`, `int_field_out_of_range_refused`, `float_inf_refused`, `float_wrong_type_refused`, `float32_overflow_refused(_anywhere)`, `float_huge_int_refused` |
+| accepted ⇒ in the domain ∧ stored ∧ read back | `accepted_sound` (every descriptor; per kind: `int_/byte_/char_/str_/struct_/float_field_accepted_sound`, `array_field_accepted_sound`), `accepted_sound_nonfloat` (no assumption), `accepted_sound_under_rounding_hypotheses`, `model_meets_spec_accepted` |
+| `get (set x v) = canon v` | `spec_readback_is_canon` (from the Spec alone: holds for any observation, model or implementation), `accepted_readback_canon`, `int_field_readback_exact`, `str_field_sound`, `double_field_exact` |
+| nothing else is touched | `accepted_touches_only_the_field`, `unselected_elements_untouched` |
+| validation in force outside disable blocks | `switch_restored`, `switch_on_after_any_program`, `outside_blocks_validated`, `outside_blocks_meet_spec`, `inside_blocks_not_validated`, `log_threads_message` (programs); `validation_restored`, `off_only_inside_disable_block`, `exception_exit_restores`, `switch_spec_holds_on_every_history` (flat event histories) |
+
+Hypotheses that appear: `tyWF` / `valWF` (Spec/ValidatorsExt.lean: facts about Python objects the abstract values do not
+carry - a `bytes` consists of bytes, a ctypes / struct instance has the size of its class, a double has 64 bits, `String(n)`
+has `n > 1`, an array descriptor class goes with its kind of element validator); the field holds `ty.size` bytes.
+
+Floating point: `roundMag` (the rounding done by the C cast / `PyLong_AsDouble`) is `opaque`.  Everything about integer,
+byte, char, string and struct kinds is proved without any assumption.  For the float kinds the soundness theorems take
+`FloatOK` (three facts), which `Proofs/ValidatorsFloat.lean` derives from the named hypotheses `RoundHyp` (a finite result is
+a nearest pattern, ties to even; a value at or beyond the IEEE overflow threshold is not rounded to a finite pattern;
+float32 values and integers up to 2^53 are fixed by rounding to double; a big integer still finite after
+int → double → float was below the float32 threshold).  **These hypotheses are trusted, not proved**; the driver evaluates
+each of them at the operands of every generated float case, and compares the bit patterns with ctypes.
+`PARTIAL`: that is the only gap - no theorem here says that the C compiler's cast satisfies `RoundHyp`.
 -/
 namespace Pyrtma.C09
 open Pyrtma.Validators
@@ -490,5 +513,626 @@ example : setField true (.str 6) [1, 2, 3, 4, 5, 6] .whole (.sc (.str [104, 105,
 example : setField true (.arr .structArray (.strct 1 2) 2) [0, 0, 0, 0] (.idx 0) (.seq .tuple []) = ([0, 0, 0, 0], some .typeError) := by decide
 example : Ctx.trace {} [.enter false, .enter true, .exitExc, .enter false, .exitNormal, .exitExc] = [false, false, false, false, false, true] := by decide
 example : inDom (.arr .intArray (.int .i8) 3) .whole (.seq .list [.int 1, .int 200, .int 3]) = false := by decide
+
+
+/-! ## soundness: accepted ⇒ in the domain ∧ stored ∧ read back (every field kind, every key, every value)
+
+`SoundAt ty key v post` = the Spec's `inDom ty key v` ∧ the Spec's `postOk ty key v post rb` with `rb` the model's own
+read-back `readField ty key post` (`__get__` / `__getitem__`) ∧ the field keeps its size.  Hypotheses of the theorems:
+`tyWF` (a `String(n)` has `n > 1`, an array descriptor class goes with its kind of element validator), `valWF` (facts
+about Python objects the abstract values do not carry: a `bytes` consists of bytes, a ctypes / struct instance has the
+size of its class, a double has 64 bits), the field holds `ty.size` bytes, and - **only for float element kinds** -
+`FloatOK` (three facts about the opaque rounding function, proved from named hypotheses in the § floats below). -/
+
+theorem asciiDecode_ascii (cs : List Nat) (h : ∀ c ∈ cs, c < 128) : asciiDecode cs = .str cs := by
+  unfold asciiDecode
+  have : cs.any (· ≥ 128) = false := by
+    simp only [List.any_eq_false, decide_eq_true_eq]
+    intro c hc; have := h c hc; omega
+  simp [this]
+
+theorem char_field_sound (old : Bytes) (key : Key) (v : PyVal) (post : Bytes)
+    (hw : valWF .byte v = true) (h : setField true .char old key v = (post, none)) :
+    inDom .char key v = true ∧ postOk .char key v post (readField .char key post) = true ∧
+    post.length = FTy.char.size := by
+  unfold setField at h
+  simp only at h
+  split at h
+  · rename_i raw
+    simp only [Prod.mk.injEq, and_true] at h; subst h
+    have : raw.length = 1 := by
+      simp only [valWF, scalarWF, CT.size, Bool.and_eq_true, beq_iff_eq] at hw; exact hw.1
+    simp [inDom, postOk, FTy.size, this]
+  · rename_i s hnc
+    have hs := lift_ok _ _ _ h
+    unfold setStr at hs
+    simp only [if_true] at hs
+    split at hs
+    · cases hs
+    · rename_i hchk
+      unfold strCheck at hchk
+      cases s with
+      | str cs =>
+        simp only [if_true] at hchk
+        split at hchk
+        · cases hchk
+        · rename_i hlen
+          split at hchk
+          · cases hchk
+          · rename_i hasc
+            simp only [strStore, hasc, Bool.false_eq_true, if_false, if_true] at hs
+            split at hs
+            · rename_i hl1
+              simp only [Except.ok.injEq] at hs; subst hs
+              have hall : ∀ c ∈ cs, c < 128 := by
+                intro c hc
+                simp only [List.any_eq_true, not_exists, not_and, decide_eq_true_eq] at hasc
+                have := hasc c hc; omega
+              have hall' : cs.all (· < 128) = true := by simpa using hall
+              simp [inDom, strDom, postOk, readField, asciiDecode_ascii cs hall, hl1, hall', FTy.size]
+            · cases hs
+      | _ => cases hchk
+  · simp at h
+
+theorem str_field_accepted_sound (n : Nat) (hn : 1 < n) (old : Bytes) (key : Key) (v : PyVal) (post : Bytes)
+    (h : setField true (.str n) old key v = (post, none)) :
+    inDom (.str n) key v = true ∧ postOk (.str n) key v post (readField (.str n) key post) = true ∧
+    post.length = (FTy.str n).size := by
+  have hkv : key = .whole ∧ ∃ s, v = .sc s := by
+    unfold setField at h
+    simp only at h
+    split at h
+    · exact ⟨rfl, _, rfl⟩
+    · simp at h
+  obtain ⟨rfl, s, rfl⟩ := hkv
+  obtain ⟨cs, rfl, hlen, hasc, hpost, hup⟩ := str_field_sound n hn old s post h
+  have hall : cs.all (· < 128) = true := by simpa using hasc
+  have hnz := upToNul_no_zero cs
+  have hsub : ∀ c ∈ upToNul cs, c < 128 := by
+    intro c hc
+    have : ∀ (l : List Nat), ∀ c ∈ upToNul l, c ∈ l := by
+      intro l
+      induction l with
+      | nil => intro c hc; simp [upToNul] at hc
+      | cons x xs ih =>
+        intro c hc
+        unfold upToNul at hc
+        split at hc
+        · simp at hc
+        · simp only [List.mem_cons] at hc ⊢
+          rcases hc with rfl | hc
+          · left; rfl
+          · right; exact ih c hc
+    exact hasc c (this cs c hc)
+  have hlen2 : (upToNul cs).length ≤ cs.length := by
+    have : ∀ (l : List Nat), (upToNul l).length ≤ l.length := by
+      intro l
+      induction l with
+      | nil => simp [upToNul]
+      | cons x xs ih => unfold upToNul; split <;> simp <;> omega
+    exact this cs
+  refine ⟨?_, ?_, ?_⟩
+  · simp only [inDom, strDom, hall, Bool.and_true, decide_eq_true_eq]; exact hlen
+  · simp only [postOk, readField, hup, beq_self_eq_true, Bool.true_and]
+    rw [asciiDecode_ascii _ hsub]; simp
+  · rw [hpost]; simp [FTy.size]; omega
+
+
+theorem int_field_accepted_sound (k : IK) (old : Bytes) (key : Key) (v : PyVal) (post : Bytes)
+    (hw : valWF (.int k) v = true) (h : setField true (.int k) old key v = (post, none)) :
+    SoundAt (.int k) key v post := int_field_sound k old key v post hw h
+
+theorem byte_field_accepted_sound (old : Bytes) (key : Key) (v : PyVal) (post : Bytes)
+    (hw : valWF .byte v = true) (h : setField true .byte old key v = (post, none)) :
+    SoundAt .byte key v post := byte_field_sound old key v post hw h
+
+theorem struct_field_accepted_sound (tid sz : Nat) (old : Bytes) (key : Key) (v : PyVal) (post : Bytes)
+    (hw : valWF (.strct tid sz) v = true) (h : setField true (.strct tid sz) old key v = (post, none)) :
+    SoundAt (.strct tid sz) key v post := strct_field_sound tid sz old key v post hw h
+
+/-- float / double scalar fields, given the first float fact (`FltStoreSound`) -/
+theorem float_field_accepted_sound (hF : FltStoreSound) (k : FK) (old : Bytes) (key : Key) (v : PyVal) (post : Bytes)
+    (hw : valWF (.flt k) v = true) (h : setField true (.flt k) old key v = (post, none)) :
+    SoundAt (.flt k) key v post := flt_field_sound hF k old key v post hw h
+
+/-- **arrays** (`IntArray`, `FloatArray`, `ByteArray`, `StructArray`; key: one index, *any* slice `[a:b:c]` - negative,
+out-of-range, extended -, the whole field; value: scalar, list / tuple / ctypes array / generator, `bytes`, `str`,
+another message's bound or unbound array object): accepted ⇒ in the domain, every selected element holds its item
+(`sliceIndices_spec`: the selected element numbers are pairwise different and inside the array, so no later element store
+overwrites an earlier one), the selection reads back as stored. -/
+theorem array_field_accepted_sound (cls : ArrCls) (vk : VK) (hF : FloatOK vk) (n : Nat) (old : Bytes) (key : Key)
+    (v : PyVal) (post : Bytes) (hc : clsOK cls vk = true) (hold : old.length = vk.esize * n)
+    (hw : valWF vk v = true) (h : setField true (.arr cls vk n) old key v = (post, none)) :
+    SoundAt (.arr cls vk n) key v post := arr_field_sound cls vk hF n old key v post hc hold hw h
+
+/-- **Soundness, every field descriptor at once.** -/
+theorem accepted_sound (ty : FTy) (hF : FloatOK ty.vk) (old : Bytes) (key : Key) (v : PyVal) (post : Bytes)
+    (hty : tyWF ty = true) (hold : old.length = ty.size) (hw : valWF ty.vk v = true)
+    (h : setField true ty old key v = (post, none)) : SoundAt ty key v post := by
+  cases ty with
+  | int k => exact int_field_sound k old key v post hw h
+  | flt k => exact flt_field_sound (hF k rfl).1 k old key v post hw h
+  | byte => exact byte_field_sound old key v post hw h
+  | char => exact char_field_sound old key v post hw h
+  | str n => exact str_field_accepted_sound n (by simpa [tyWF] using hty) old key v post h
+  | strct t z => exact strct_field_sound t z old key v post hw h
+  | arr cls vk n =>
+    exact arr_field_sound cls vk hF n old key v post (by simpa [tyWF] using hty) (by simpa [FTy.size] using hold) hw h
+
+/-- … and without any assumption about floating point for every field whose elements are not floats -/
+theorem accepted_sound_nonfloat (ty : FTy) (hnf : ∀ k, ty.vk ≠ .flt k) (old : Bytes) (key : Key) (v : PyVal)
+    (post : Bytes) (hty : tyWF ty = true) (hold : old.length = ty.size) (hw : valWF ty.vk v = true)
+    (h : setField true ty old key v = (post, none)) : SoundAt ty key v post :=
+  accepted_sound ty (fun k hk => absurd hk (hnf k)) old key v post hty hold hw h
+
+/-- in the form of the Spec's clause list: on an accepted assignment of the model all three clauses of `C09.holds`
+are true (the observation being the model's own result and read-back) -/
+theorem model_meets_spec_accepted (ty : FTy) (hF : FloatOK ty.vk) (old : Bytes) (key : Key) (v : PyVal) (post : Bytes)
+    (hty : tyWF ty = true) (hold : old.length = ty.size) (hw : valWF ty.vk v = true)
+    (h : setField true ty old key v = (post, none)) :
+    Validators.holds ty key v
+      { pre := old, post := post, raised := false, outsideChanged := false, rb := readField ty key post } := by
+  obtain ⟨h1, h2, _⟩ := accepted_sound ty hF old key v post hty hold hw h
+  intro c hc
+  simp only [clauses, List.mem_cons, List.mem_nil_iff, or_false] at hc
+  rcases hc with rfl | rfl | rfl <;> simp [h1, h2]
+
+/-! ## `get (set x v) = canon v` -/
+
+/-- **Read-back equals the value assigned, from the Spec alone** (integers exactly, bools as 0/1, a length-one `bytes` as
+that byte, strings up to the NUL, structs byte for byte; every non-float kind): whatever *observation* satisfies the
+Spec's `inDom` and `postOk` - the model's or the implementation's - has read back `canonVal ty key v`. -/
+theorem spec_readback_is_canon (ty : FTy) (hnf : ∀ k, ty.vk ≠ .flt k) (key : Key) (v : PyVal) (post : Bytes)
+    (rb : List Scalar) (hw : valWF ty.vk v = true)
+    (hraw : ∀ cls vk n, ty = .arr cls vk n → ∀ c k m r, key = .whole → v = .arr c k m (some r) →
+      r.length = vk.esize * n)
+    (hd : inDom ty key v = true) (hp : postOk ty key v post rb = true) :
+    ∀ l, canonVal ty key v = some l → rb = l :=
+  spec_readback_canon ty hnf key v post rb hw hraw hd hp
+
+/-- **`get (set x v) = canon v` for the model**: after an accepted assignment the field reads back the canonical value
+of what was assigned - every non-float field kind, every key (index, any slice shape, whole), every value. -/
+theorem accepted_readback_canon (ty : FTy) (hnf : ∀ k, ty.vk ≠ .flt k) (old : Bytes) (key : Key) (v : PyVal)
+    (post : Bytes) (hty : tyWF ty = true) (hold : old.length = ty.size) (hw : valWF ty.vk v = true)
+    (h : setField true ty old key v = (post, none)) :
+    ∀ l, canonVal ty key v = some l → readField ty key post = l := by
+  obtain ⟨hd, hp, _⟩ := accepted_sound_nonfloat ty hnf old key v post hty hold hw h
+  refine spec_readback_canon ty hnf key v post _ hw ?_ hd hp
+  intro cls vk n hty' c k m r hk hv
+  subst hty' hk hv
+  exact accepted_raw_size cls vk (fun k' hk' => absurd hk' (hnf k')) n old c k m r post
+    (by simpa [tyWF] using hty) hw h
+
+/-- integers in particular: an accepted slice assignment of in-range Python ints reads back those very ints -/
+example : canonVal (.arr .intArray (.int .i8) 3) (.slice none none (some (-1)))
+    (.seq .tuple [.int 1, .bool true, .int (-128)]) = some [.int 1, .int 1, .int (-128)] := by decide
+example : canonVal (.arr .byteArray .byte 4) (.slice (some 0) none (some 2)) (.sc (.bytes [65, 66]))
+    = some [.bytes [65], .bytes [66]] := by decide
+example : canonVal (.str 6) .whole (.sc (.str [104, 105, 0, 106])) = some [.str [104, 105]] := by decide
+
+/-! ## all or nothing, at full generality
+
+What `refused_atomic` (above) already covers: **every** field descriptor (`FTy`: 8 int widths, 2 float widths, char, byte,
+string of any length, Int/Float/Byte/Struct arrays of any length and element type, struct of any size), **every** key
+(index, any slice `[a:b:c]`, whole field, non-integer key), **every** content and **every** right-hand side (scalars,
+lists / tuples / ctypes arrays / generators of any length with the refused element at any position after any prefix of
+valid ones, `bytes`, `str`, ctypes and struct instances, bound / unbound array objects of any family).  It speaks about the
+field's own bytes.  Added here:
+
+* the statement for the **whole object**: `refused_leaves_message_unchanged` (the field is a sub-range of the top-level
+  buffer - directly, through nested structs, inside struct-array elements, or through a view bound earlier; the view case is
+  also part of `exec`, § the validation switch);
+* the converse frame: an accepted assignment changes nothing outside the field (`accepted_touches_only_the_field`) and,
+  inside an array, nothing outside the selected elements (`unselected_elements_untouched`);
+* the "k-th element after any valid prefix" form spelled out for the four array families
+  (`…_kth_bad_all_or_nothing`), byte arrays included (`byte_array_bad_element_refused` was missing). -/
+
+open Pyrtma.Validators
+
+theorem splice_same (msg : Bytes) (off sz : Nat) :
+    msg.take off ++ (msg.drop off).take sz ++ msg.drop (off + sz) = msg := by
+  rw [List.append_assoc, ← List.drop_drop, List.take_append_drop, List.take_append_drop]
+
+theorem splice_frame (A new C : Bytes) (off sz : Nat) (hA : A.length = off) (hn : new.length = sz) :
+    (A ++ new ++ C).take off = A ∧ (A ++ new ++ C).drop (off + sz) = C ∧
+    ((A ++ new ++ C).drop off).take sz = new := by
+  subst hA hn
+  refine ⟨?_, ?_, ?_⟩
+  · rw [List.append_assoc, List.take_left']; rfl
+  · rw [← List.length_append, List.drop_left']; rfl
+  · rw [List.append_assoc, List.drop_left' rfl, List.take_left' rfl]
+
+/-- **All or nothing, seen from the whole object.**  The field lives at bytes `off … off + ty.size` of the top-level
+message (directly, inside a nested struct, inside an element of a struct array, or reached through a view bound
+earlier: all of these are sub-ranges of the one buffer).  With validation on, an assignment that raises leaves
+**every byte of the message** as it was. -/
+theorem refused_leaves_message_unchanged (msg : Bytes) (off : Nat) (ty : FTy) (key : Key) (v : PyVal) :
+    (setAt true msg off ty key v).2 ≠ none → (setAt true msg off ty key v).1 = msg := by
+  intro h
+  unfold setAt at h ⊢
+  simp only at h ⊢
+  rw [refused_atomic ty _ key v h]
+  exact splice_same msg off ty.size
+
+/-- … and an accepted one changes nothing but the field: same length, same bytes before and after it -/
+theorem accepted_touches_only_the_field (msg : Bytes) (off : Nat) (ty : FTy) (hF : FloatOK ty.vk) (key : Key)
+    (v : PyVal) (msg' : Bytes) (hfit : off + ty.size ≤ msg.length) (hty : tyWF ty = true)
+    (hw : valWF ty.vk v = true) (h : setAt true msg off ty key v = (msg', none)) :
+    msg'.length = msg.length ∧ msg'.take off = msg.take off ∧
+    msg'.drop (off + ty.size) = msg.drop (off + ty.size) ∧
+    (msg'.drop off).take ty.size = (setField true ty ((msg.drop off).take ty.size) key v).1 := by
+  unfold setAt at h
+  simp only [Prod.mk.injEq] at h
+  obtain ⟨h1, h2⟩ := h
+  have hold : ((msg.drop off).take ty.size).length = ty.size := by simp; omega
+  have hacc : setField true ty ((msg.drop off).take ty.size) key v =
+      ((setField true ty ((msg.drop off).take ty.size) key v).1, none) := by
+    rw [← h2]
+  have hlen := (accepted_sound ty hF _ key v _ hty hold hw hacc).2.2
+  generalize (setField true ty ((msg.drop off).take ty.size) key v).1 = new at *
+  subst h1
+  have hA : (msg.take off).length = off := by simp; omega
+  obtain ⟨f1, f2, f3⟩ := splice_frame (msg.take off) new (msg.drop (off + ty.size)) off ty.size hA hlen
+  exact ⟨by simp; omega, f1, f2, f3⟩
+
+
+/-- inside an array an accepted assignment leaves every element it does not select untouched -/
+theorem unselected_elements_untouched (cls : ArrCls) (vk : VK) (hF : FloatOK vk) (n : Nat) (old : Bytes) (key : Key)
+    (v : PyVal) (post : Bytes) (hold : old.length = vk.esize * n) (hw : valWF vk v = true)
+    (h : setField true (.arr cls vk n) old key v = (post, none)) :
+    ∀ idxs, selIndices n key = .ok idxs → ∀ j, j < n → j ∉ idxs →
+      elemBytes post j vk.esize = elemBytes old j vk.esize :=
+  arr_frame cls vk hF n old key v post hold hw h
+
+/-- a refusal of the field assignment is a refusal that leaves the whole message as it was -/
+theorem refused_whole (msg : Bytes) (off : Nat) (ty : FTy) (key : Key) (v : PyVal)
+    (h : ∀ old, (setField true ty old key v).2 ≠ none) : ∃ e, setAt true msg off ty key v = (msg, some e) := by
+  have h2 : (setAt true msg off ty key v).2 ≠ none := h _
+  have h1 := refused_leaves_message_unchanged msg off ty key v h2
+  cases he : (setAt true msg off ty key v).2 with
+  | none => exact absurd he h2
+  | some e => exact ⟨e, Prod.ext h1 he⟩
+
+/-- **byte arrays**: an element that is no int in 0..255 is refused at any position -/
+theorem byte_array_bad_element_refused (n : Nat) (old : Bytes) (a b c : Option Int) (kind : SeqK)
+    (pre post : List Scalar) (bad : Scalar) (hbad : intDom 0 255 bad = false) (whole : Bool) :
+    (setField true (.arr .byteArray .byte n) old (if whole then .whole else .slice a b c)
+      (.seq kind (pre ++ bad :: post))).2 ≠ none := by
+  have key : ∀ key : Key, (setItem true .byte n old key (.seq kind (pre ++ bad :: post))).2 ≠ none := by
+    intro key
+    unfold setItem
+    have hm : itemCheck .byte key (.seq kind (pre ++ bad :: post)) ≠ .ok () := by
+      intro hm
+      unfold itemCheck at hm
+      simp only [iterable, if_true] at hm
+      unfold validateMany at hm
+      simp only [items] at hm
+      have := intMany_range hm bad (by simp)
+      rw [hbad] at this; cases this
+    simp only [if_true]
+    split
+    · simp
+    · rename_i hchk; exact absurd hchk hm
+  cases whole <;> simp only [setField, Bool.false_eq_true, if_false, if_true] <;> exact key _
+
+/-- **the k-th element, after any prefix of valid ones**: one bad element at position `pre.length` of a sequence
+assigned to an int array (slice of any shape or whole field; list, tuple, ctypes array or generator) - the assignment
+raises and **every byte of the message** is as before.  (`pre`, `post` are arbitrary: valid, invalid, NaN, anything.) -/
+theorem int_array_kth_bad_all_or_nothing (msg : Bytes) (off : Nat) (k : IK) (n : Nat) (a b c : Option Int) (kind : SeqK)
+    (pre post : List Scalar) (bad : Scalar) (hbad : intDom k.lo k.hi bad = false) (whole : Bool) :
+    ∃ e, setAt true msg off (.arr .intArray (.int k) n) (if whole then .whole else .slice a b c)
+      (.seq kind (pre ++ bad :: post)) = (msg, some e) :=
+  refused_whole msg off _ _ _ (fun old => int_array_bad_element_refused k n old a b c kind pre post bad hbad whole)
+
+theorem float_array_kth_bad_all_or_nothing (msg : Bytes) (off : Nat) (k : FK) (n : Nat) (a b c : Option Int)
+    (kind : SeqK) (pre post : List Scalar) (bad : Scalar)
+    (hbad : ∀ d, toDouble bad = .ok d → infAfter k d = true) (whole : Bool) :
+    ∃ e, setAt true msg off (.arr .floatArray (.flt k) n) (if whole then .whole else .slice a b c)
+      (.seq kind (pre ++ bad :: post)) = (msg, some e) :=
+  refused_whole msg off _ _ _ (fun old => float_array_bad_element_refused k n old a b c kind pre post bad hbad whole)
+
+theorem byte_array_kth_bad_all_or_nothing (msg : Bytes) (off : Nat) (n : Nat) (a b c : Option Int) (kind : SeqK)
+    (pre post : List Scalar) (bad : Scalar) (hbad : intDom 0 255 bad = false) (whole : Bool) :
+    ∃ e, setAt true msg off (.arr .byteArray .byte n) (if whole then .whole else .slice a b c)
+      (.seq kind (pre ++ bad :: post)) = (msg, some e) :=
+  refused_whole msg off _ _ _ (fun old => byte_array_bad_element_refused n old a b c kind pre post bad hbad whole)
+
+theorem struct_array_kth_bad_all_or_nothing (msg : Bytes) (off : Nat) (tid sz n : Nat) (a b c : Option Int)
+    (kind : SeqK) (pre post : List Scalar) (bad : Scalar) (hbad : ∀ raw, bad ≠ .strct tid raw) (whole : Bool) :
+    ∃ e, setAt true msg off (.arr .structArray (.strct tid sz) n) (if whole then .whole else .slice a b c)
+      (.seq kind (pre ++ bad :: post)) = (msg, some e) :=
+  refused_whole msg off _ _ _
+    (fun old => struct_array_bad_element_refused tid sz n old a b c kind pre post bad hbad whole)
+
+/-- the third element of four is out of range: nothing of a 7-byte message changes, although the first two are valid -/
+example : setAt true [1, 2, 3, 4, 5, 6, 7] 2 (.arr .intArray (.int .i8) 4) .whole
+    (.seq .list [.int 1, .int 2, .int 300, .int 4]) = ([1, 2, 3, 4, 5, 6, 7], some .valueError) := by decide
+/-- the same store with validation off writes the prefix (`c_int8(300)` wraps, so use a wrong type to stop it) -/
+example : setAt false [1, 2, 3, 4, 5, 6, 7] 2 (.arr .intArray (.int .i8) 4) .whole
+    (.seq .list [.int 9, .int 9, .str [97], .int 4]) = ([1, 2, 9, 9, 5, 6, 7], some .typeError) := by decide
+example : setAt true [1, 2, 3, 4, 5, 6, 7] 2 (.arr .intArray (.int .i8) 4) (.slice (some 3) none (some (-2)))
+    (.seq .list [.int 9, .int 8]) = ([1, 2, 3, 8, 5, 9, 7], none) := by decide
+
+/-! ## the validation switch over whole programs
+
+`Stmt` / `execList` (Model/ValidatorsExt.lean): `with disable_message_validation(ignore): …` nested to any depth,
+`try … except: pass`, `raise`, binding of array objects / sub-structures / struct-array elements at any point, assignments
+through a fresh attribute access or through an object bound earlier.  A refused assignment is an exception like any other:
+it leaves every enclosing block up to the next `try`.  (The flat event histories of `validation_restored` above are the
+special case without assignments.) -/
+
+open Pyrtma.Validators
+
+/-- the model's own observation of one recorded assignment -/
+def obsOf (r : AssignRec) : ProgObs :=
+  { depth := r.depth, loc := r.loc, key := r.key, val := r.val, pre := r.pre, post := r.post,
+    raised := r.err.isSome, rb := readAt r.post r.loc.off r.loc.ty r.key }
+
+/-- **The switch is restored.**  Whatever the program - blocks nested to any depth, `ignore` or not, left normally, by
+`raise`, or by a refused assignment; `try/except` anywhere; views bound anywhere - the context variable afterwards is
+what it was before, also when the program as a whole ends by an exception. -/
+theorem switch_restored (d : Nat) (s : PState) (h : s.flag = decide (d = 0)) (prog : List Stmt) :
+    (execList d s prog).1.flag = s.flag := (execList_ok d s h prog).1
+
+theorem switch_on_after_any_program (msg : Bytes) (prog : List Stmt) :
+    (execList 0 { msg := msg } prog).1.flag = true := switch_restored 0 { msg := msg } rfl prog
+
+/-- **Every assignment outside a disable block is validated, whatever it goes through**: each assignment the run
+executed at lexical depth 0 - after any number of blocks entered and left before it, through a fresh attribute access or
+through any object bound earlier (inside or outside a block) - had exactly the effect of the validating
+`__set__` / `__setitem__` on the message as it was at that moment. -/
+theorem outside_blocks_validated (msg : Bytes) (prog : List Stmt) :
+    ∀ rec ∈ (execList 0 { msg := msg } prog).1.log, rec.depth = 0 →
+      (rec.post, rec.err) = setAt true rec.pre rec.loc.off rec.loc.ty rec.key rec.val := by
+  obtain ⟨_, new, hlog, _, hall⟩ := execList_ok 0 { msg := msg } rfl prog
+  intro rec hrec hd
+  rw [hlog] at hrec
+  simp only [List.append_nil] at hrec
+  obtain ⟨hf, hr⟩ := hall rec hrec
+  unfold RecOK at hr
+  rw [hf, hd] at hr
+  simpa using hr
+
+/-- … and inside a disabling block none is (the flag really is off there: the model does not validate more than the code) -/
+theorem inside_blocks_not_validated (msg : Bytes) (prog : List Stmt) :
+    ∀ rec ∈ (execList 0 { msg := msg } prog).1.log, rec.depth ≠ 0 →
+      (rec.post, rec.err) = setAt false rec.pre rec.loc.off rec.loc.ty rec.key rec.val := by
+  obtain ⟨_, new, hlog, _, hall⟩ := execList_ok 0 { msg := msg } rfl prog
+  intro rec hrec hd
+  rw [hlog] at hrec
+  simp only [List.append_nil] at hrec
+  obtain ⟨hf, hr⟩ := hall rec hrec
+  unfold RecOK at hr
+  rw [hf] at hr
+  simpa [hd] using hr
+
+/-- the recorded assignments thread the message from its initial to its final content: each one started from what
+the previous one left behind -/
+theorem log_threads_message (msg : Bytes) (prog : List Stmt) :
+    Chain msg (execList 0 { msg := msg } prog).1.log.reverse (execList 0 { msg := msg } prog).1.msg := by
+  obtain ⟨_, new, hlog, hch, _⟩ := execList_ok 0 { msg := msg } rfl prog
+  rw [hlog]; simpa using hch
+
+/-- one validated assignment on the whole message meets every clause of C09 -/
+theorem setAt_meets_spec (pre : Bytes) (l : Loc) (hF : FloatOK l.ty.vk) (key : Key) (v : PyVal) (post : Bytes)
+    (err : Option PyErr) (hfit : l.off + l.ty.size ≤ pre.length) (hty : tyWF l.ty = true)
+    (hw : valWF l.ty.vk v = true) (h : (post, err) = setAt true pre l.off l.ty key v) :
+    ∀ c ∈ clauses l.ty key v
+      (ProgObs.toObs { depth := 0, loc := l, key := key, val := v, pre := pre, post := post, raised := err.isSome,
+                       rb := readAt post l.off l.ty key }), c.2 = true := by
+  cases err with
+  | some e =>
+    have hne : (setAt true pre l.off l.ty key v).2 ≠ none := by rw [← h]; simp
+    have hsame := refused_leaves_message_unchanged pre l.off l.ty key v hne
+    have hp : post = pre := by rw [← hsame, ← h]
+    subst hp
+    intro c hc
+    simp only [clauses, ProgObs.toObs, List.mem_cons, List.mem_nil_iff, or_false] at hc
+    rcases hc with rfl | rfl | rfl <;> simp
+  | none =>
+    obtain ⟨hlen, h1, h2, h3⟩ := accepted_touches_only_the_field pre l.off l.ty hF key v post hfit hty hw h.symm
+    have hold : (fieldOf pre l).length = l.ty.size := by simp [fieldOf]; omega
+    have hacc : setField true l.ty (fieldOf pre l) key v = (fieldOf post l, none) := by
+      have : (setAt true pre l.off l.ty key v).2 = none := by rw [← h]
+      unfold setAt at this
+      simp only at this
+      unfold fieldOf
+      rw [h3]
+      exact Prod.ext rfl this
+    obtain ⟨hd, hp, _⟩ := accepted_sound l.ty hF _ key v _ hty hold hw hacc
+    intro c hc
+    simp only [clauses, ProgObs.toObs, List.mem_cons, List.mem_nil_iff, or_false] at hc
+    have hrb : readAt post l.off l.ty key = readField l.ty key (fieldOf post l) := rfl
+    rcases hc with rfl | rfl | rfl
+    · simp
+    · simp [hd]
+    · simp [hd, hrb, hp]
+
+/-- **Outside disable blocks the whole of C09 holds** for the run of any program: every recorded assignment at depth 0
+satisfies the three clauses (refused ⇒ every byte of the message unchanged; accepted ⇒ in the domain, stored, read back,
+nothing outside the field touched) - given that the fields lie inside the message and the values are well-formed. -/
+theorem outside_blocks_meet_spec (msg : Bytes) (prog : List Stmt) :
+    ∀ rec ∈ (execList 0 { msg := msg } prog).1.log,
+      FloatOK rec.loc.ty.vk → rec.loc.off + rec.loc.ty.size ≤ rec.pre.length → tyWF rec.loc.ty = true →
+      valWF rec.loc.ty.vk rec.val = true → ∀ c ∈ progClauses (obsOf rec), c.2 = true := by
+  intro rec hrec hF hfit hty hw c hc
+  unfold progClauses obsOf at hc
+  simp only at hc
+  split at hc
+  · rename_i hd
+    have hv := outside_blocks_validated msg prog rec hrec hd
+    exact setAt_meets_spec rec.pre rec.loc hF rec.key rec.val rec.post rec.err hfit hty hw hv c hc
+  · simp at hc
+
+
+/-- **The Spec's clause about the switch holds on the model for every event history**: after every event of every
+sequence of `enter(ignore?)` / `exit(normal | exception)` events the flag is on exactly when no block entered with
+`ignore = False` is open (`ctxOk` is the predicate the driver evaluates on the implementation's behaviour). -/
+theorem switch_spec_holds_on_every_history (evs : List CtxEv) : ctxOk evs (Ctx.trace {} evs) = true :=
+  trace_meets_ctxOk evs
+
+/-- a view bound *inside* a disable block and used after it: validated (the bad value is refused, nothing changes); used
+inside the block: not validated (300 wraps to 44); the switch is on at the end although the last statement raised -/
+def demoTy : FTy := .arr .intArray (.int .i8) 3
+def demoRun : PState × Bool :=
+  execList 0 { msg := [0, 0, 0] }
+    [ .block false [.bind 0 ⟨0, demoTy⟩, .assign (.view 0) ⟨0, demoTy⟩ (.idx 0) (.sc (.int 300)),
+                    .block true [.tryCatch [.raise]]],
+      .tryCatch [.assign (.view 0) ⟨0, demoTy⟩ (.idx 1) (.sc (.int 300)),
+                 .assign .fresh ⟨0, demoTy⟩ (.idx 1) (.sc (.int 1))],
+      .block false [.block false [.raise]],
+      .assign .fresh ⟨0, demoTy⟩ (.idx 2) (.sc (.int 7)) ]
+example : demoRun.1.msg = [44, 0, 0] ∧ demoRun.1.flag = true ∧ demoRun.2 = true ∧
+    (demoRun.1.log.reverse.map fun x => (x.depth, x.flag, x.err)) =
+      [(1, false, none), (0, true, some .valueError)] := by decide
+
+/-! ## floats
+
+`roundMag` stays `opaque`.  Proved here **without** any assumption about it: ±inf refused, NaN accepted and stored as NaN,
+a double field holds every finite double bit for bit, wrong types refused, bools accepted.  Proved from **named
+hypotheses** (`RoundHyp`, Proofs/ValidatorsFloat.lean - each a property of IEEE round-to-nearest, listed in the trusted
+base, and evaluated by the driver at the operands of every generated float case): float32 overflow refused at any position,
+ints too large for a double refused, and the three facts `FloatOK` that `accepted_sound` needs - so that accepted ⇒ the value
+is in the float domain and the stored pattern is a *nearest* representable finite value (ties to even), for floats, ints,
+bools, for scalar fields, elements, slices and copied arrays. -/
+
+open Pyrtma.Validators
+
+/-- **Soundness for every field descriptor under the named rounding hypotheses** (`RoundHyp`: a finite result is a
+nearest pattern; a value at or beyond the overflow threshold is not rounded to a finite pattern; float32 values and
+integers up to 2^53 are fixed by rounding to double; the big-integer monotonicity clause). -/
+theorem accepted_sound_under_rounding_hypotheses (R : RoundHyp) (ty : FTy) (old : Bytes) (key : Key) (v : PyVal)
+    (post : Bytes) (hty : tyWF ty = true) (hold : old.length = ty.size) (hw : valWF ty.vk v = true)
+    (h : setField true ty old key v = (post, none)) : SoundAt ty key v post :=
+  accepted_sound ty (floatOK_of R ty.vk) old key v post hty hold hw h
+
+/-! ### independent of the rounding function -/
+
+theorem flt_scalar_refused (k : FK) (old : Bytes) (s : Scalar) (e : PyErr) (h : validateOne (.flt k) s = .error e) :
+    setField true (.flt k) old .whole (.sc s) = (old, some e) := by
+  simp [setField, setScalar, h, lift]
+
+/-- **±infinity is refused** by float and double fields alike -/
+theorem float_inf_refused (k : FK) (old : Bytes) (b : Nat) (h : isInf64 b = true) :
+    setField true (.flt k) old .whole (.sc (.flt b)) = (old, some .valueError) := by
+  apply flt_scalar_refused
+  simp [validateOne, toDouble, inf_infAfter k b h]
+
+/-- **NaN is accepted** by both kinds and stored as a NaN (the field's magnitude bits are above the infinity pattern) -/
+theorem float_nan_accepted (k : FK) (old : Bytes) (b : Nat) (hb : b < 2 ^ 64) (h : isNaN64 b = true) :
+    ∃ post, setField true (.flt k) old .whole (.sc (.flt b)) = (post, none) ∧
+      fromLE post % (fmtOf k).sign > (fmtOf k).infPat := by
+  have hni := nan_not_infAfter k b h
+  refine ⟨encFlt k b, by simp [setField, setScalar, validateOne, toDouble, hni, elemStore, lift], ?_⟩
+  simp only [isNaN64, decide_eq_true_eq] at h
+  cases k with
+  | f64 =>
+    simp only [encFlt, fromLE_toLE8 b hb, fmtOf64, fmt64_sign]
+    rw [fmt64_inf] at h ⊢; omega
+  | f32 =>
+    have hm : b % 2 ^ 63 < 2 ^ 63 := Nat.mod_lt _ (by decide)
+    rcases decodeMag64_cases (b % 2 ^ 63) hm with ⟨hlt, _⟩ | ⟨heq, _⟩ | ⟨_, hd⟩
+    · omega
+    · omega
+    · have hn := narrow_nan b hd
+      have hs : b / 2 ^ 63 % 2 < 2 := Nat.mod_lt _ (by decide)
+      have hlt : narrow b < 2 ^ 32 := by rw [hn]; omega
+      simp only [encFlt, fromLE_toLE4 _ hlt, fmtOf32, fmt32_sign, fmt32_inf]
+      rw [hn]; omega
+
+/-- **a double field holds every finite double bit for bit** and reads it back unchanged: no rounding is involved -/
+theorem double_field_exact (old : Bytes) (b : Nat) (hb : b < 2 ^ 64) (hfin : isInf64 b = false) :
+    setField true (.flt .f64) old .whole (.sc (.flt b)) = (toLE 8 b, none) ∧
+    readField (.flt .f64) .whole (toLE 8 b) = [.flt b] := by
+  refine ⟨by simp [setField, setScalar, validateOne, toDouble, infAfter, hfin, elemStore, encFlt, lift], ?_⟩
+  simp [readField, fromLE_toLE8 b hb]
+
+/-- **wrong types are refused**: a `str`, a `bytes`, `None` / any other object, a struct instance (and a ctypes
+instance of another class) are no numbers -/
+theorem float_wrong_type_refused (k : FK) (old : Bytes) (s : Scalar)
+    (hs : (∃ cs, s = .str cs) ∨ (∃ bs, s = .bytes bs) ∨ s = .other ∨ (∃ t r, s = .strct t r) ∨
+          (∃ t r, s = .cdata t r ∧ t ≠ .flt k)) :
+    setField true (.flt k) old .whole (.sc s) = (old, some .typeError) := by
+  apply flt_scalar_refused
+  rcases hs with ⟨cs, rfl⟩ | ⟨bs, rfl⟩ | rfl | ⟨t, r, rfl⟩ | ⟨t, r, rfl, hne⟩ <;> try rfl
+  cases t with
+  | flt k' =>
+    have : k' ≠ k := fun h => hne (by rw [h])
+    simp [validateOne, this]
+  | int k' => rfl
+  | char => rfl
+
+/-- **bools are accepted** (`isinstance(True, int)`): a double field holds exactly 1.0 / 0.0 afterwards -/
+theorem double_accepts_bool (old : Bytes) (t : Bool) :
+    setField true (.flt .f64) old .whole (.sc (.bool t)) =
+      (toLE 8 (if t then 0x3ff0000000000000 else 0), none) := by
+  cases t <;> simp [setField, setScalar, validateOne, toDouble, infAfter, isInf64, fmt64_inf, elemStore, encFlt, lift]
+
+/-! ### needing one named hypothesis each -/
+
+/-- **float32 overflow is refused** (hypothesis: a value at or beyond the float32 overflow threshold is not rounded to a
+finite pattern): a finite double whose value overflows float32 raises `ValueError`, nothing stored -/
+theorem float32_overflow_refused
+    (ho : ∀ m e, overflowsMag fmt32 (scaled m e) = true → fmt32.infPat ≤ roundMag fmt32 m e)
+    (old : Bytes) (b m : Nat) (e : Int) (hd : decodeMag fmt64 (b % 2 ^ 63) = .fin m e)
+    (hov : overflowsMag fmt32 (scaled m e) = true) :
+    setField true (.flt .f32) old .whole (.sc (.flt b)) = (old, some .valueError) := by
+  apply flt_scalar_refused
+  simp [validateOne, toDouble, overflow32_infAfter ho b m e hd hov]
+
+/-- … at **any position of a sequence** assigned to a float32 array, whatever surrounds it (NaN neighbours included),
+for any slice shape, leaving every byte of the message unchanged -/
+theorem float32_overflow_refused_anywhere
+    (ho : ∀ m e, overflowsMag fmt32 (scaled m e) = true → fmt32.infPat ≤ roundMag fmt32 m e)
+    (msg : Bytes) (off n : Nat) (a b' c : Option Int) (kind : SeqK) (pre post : List Scalar) (b m : Nat) (e : Int)
+    (hd : decodeMag fmt64 (b % 2 ^ 63) = .fin m e) (hov : overflowsMag fmt32 (scaled m e) = true) (whole : Bool) :
+    ∃ err, setAt true msg off (.arr .floatArray (.flt .f32) n) (if whole then .whole else .slice a b' c)
+      (.seq kind (pre ++ .flt b :: post)) = (msg, some err) :=
+  float_array_kth_bad_all_or_nothing msg off .f32 n a b' c kind pre post (.flt b)
+    (fun d hd' => by
+      simp only [toDouble, Except.ok.injEq] at hd'; subst hd'
+      exact overflow32_infAfter ho b m e hd hov) whole
+
+/-- **an int too large for a double is refused** with `OverflowError` by float and double fields (hypothesis: a value at
+or beyond the double overflow threshold is not rounded to a finite pattern) -/
+theorem float_huge_int_refused
+    (ho : ∀ m e, overflowsMag fmt64 (scaled m e) = true → fmt64.infPat ≤ roundMag fmt64 m e)
+    (k : FK) (old : Bytes) (n : Int) (hov : overflowsMag fmt64 (scaled n.natAbs 0) = true) :
+    setField true (.flt k) old .whole (.sc (.int n)) = (old, some .overflowError) := by
+  apply flt_scalar_refused
+  have : ofInt n = none := by
+    unfold ofInt
+    have := ho _ _ hov
+    simp only
+    split
+    · rfl
+    · omega
+  simp [validateOne, toDouble, this]
+
+
+example : setField true (.flt .f64) [0, 0, 0, 0, 0, 0, 0, 0] .whole (.sc (.flt 0x7ff0000000000000))
+    = ([0, 0, 0, 0, 0, 0, 0, 0], some .valueError) := float_inf_refused .f64 _ _ (by decide)
+example : (setField true (.flt .f64) [0, 0, 0, 0, 0, 0, 0, 0] .whole (.sc (.flt 0x3ff8000000000000))).1
+    = [0, 0, 0, 0, 0, 0, 0xf8, 0x3f] := by rw [(double_field_exact _ _ (by decide) (by decide)).1]; decide
+
+/-! ### non-vacuity of the soundness theorems -/
+
+/-- an extended slice with a negative step on an `int8[3]`: hypotheses satisfiable, conclusion about a real store -/
+example : SoundAt (.arr .intArray (.int .i8) 3) (.slice none none (some (-1)))
+    (.seq .tuple [.int 1, .bool true, .int (-128)]) [128, 1, 1] :=
+  accepted_sound_nonfloat _ (by intro k h; cases h) [9, 9, 9] _ _ _ (by decide) (by decide) (by decide) (by decide)
+/-- … and what the model reads back from it -/
+example : readField (.arr .intArray (.int .i8) 3) (.slice none none (some (-1))) [128, 1, 1]
+    = [.int 1, .int 1, .int (-128)] := by decide
+/-- a struct array element replaced through an index, a `bytes` into a byte array through a slice with step 2 -/
+example : SoundAt (.arr .structArray (.strct 1 2) 2) (.idx (-1)) (.sc (.strct 1 [7, 8])) [0, 0, 7, 8] :=
+  accepted_sound_nonfloat _ (by intro k h; cases h) [0, 0, 0, 0] _ _ _ (by decide) (by decide) (by decide) (by decide)
+example : SoundAt (.arr .byteArray .byte 4) (.slice (some 0) none (some 2)) (.sc (.bytes [65, 66])) [65, 9, 66, 9] :=
+  accepted_sound_nonfloat _ (by intro k h; cases h) [9, 9, 9, 9] _ _ _ (by decide) (by decide) (by decide) (by decide)
+/-- another message's array object: copied as it is -/
+example : SoundAt (.arr .intArray (.int .u16) 2) .whole (.arr .intArray (.int .u16) 2 (some [1, 2, 3, 4])) [1, 2, 3, 4] :=
+  accepted_sound_nonfloat _ (by intro k h; cases h) [0, 0, 0, 0] _ _ _ (by decide) (by decide) (by decide) (by decide)
+example : SoundAt .char .whole (.sc (.str [97])) [97] :=
+  accepted_sound_nonfloat _ (by intro k h; cases h) [0] _ _ _ (by decide) (by decide) (by decide) (by decide)
 
 end Pyrtma.C09
